@@ -176,6 +176,33 @@ void harness(void) {
   if (!key_reachable) { expect[2] = 1; expect[3] = 1; }
   check_heap(ctx, expect);
   if (key_reachable) KIT_ASSERT(sexp_pointer_tag(VAL) == SEXP_PAIR && sexp_cdr(VAL) == SEXP_NULL, "the retained value is intact after the sweep");
+#elif MODE == 5
+  /* chain: R -> E2, E1, KEY1;  E1 = (KEY1 => KEY2),  E2 = (KEY2 => VAL2), with E2 placed BEFORE E1 in the heap so
+     that the value pass needs a second round: KEY2 is alive only as E1's value, VAL2 only as E2's value */
+  sexp R = (sexp)SLOT_ADDR(0), E2 = (sexp)SLOT_ADDR(1), E1 = (sexp)SLOT_ADDR(2), KEY1 = (sexp)SLOT_ADDR(3), KEY2 = (sexp)SLOT_ADDR(4), VAL2 = (sexp)SLOT_ADDR(5);
+  sexp_pointer_tag(E1) = SEXP_EPHEMERON; sexp_pointer_tag(E2) = SEXP_EPHEMERON;
+  sexp_ephemeron_key(E1) = KEY1; sexp_ephemeron_value(E1) = KEY2;
+  sexp_ephemeron_key(E2) = KEY2; sexp_ephemeron_value(E2) = VAL2;
+  _Bool key_reachable = KEY_REACHABLE;
+  sexp_car(R) = E2; sexp_cdr(R) = E1; sexp_pair_source(R) = key_reachable ? KEY1 : SEXP_FALSE;
+  sexp_global(ctx, SEXP_G_WEAK_OBJECTS_PRESENT) = SEXP_TRUE;
+  sexp_mark(ctx, R);
+#ifdef HAVE_EPHEMERON_PASS
+  sexp_mark_ephemeron_values(ctx);
+#endif
+  sexp_reset_weak_references(ctx);
+  if (key_reachable) {
+    KIT_ASSERT(sexp_markedp(KEY1) && sexp_markedp(KEY2) && sexp_markedp(VAL2), "values reachable through a chain of ephemerons with live keys are retained");
+    KIT_ASSERT(sexp_ephemeron_key(E2) == KEY2 && sexp_ephemeron_value(E2) == VAL2 && sexp_ephemeron_value(E1) == KEY2, "no ephemeron of the chain is cleared");
+  } else {
+    KIT_ASSERT(!sexp_markedp(KEY1) && !sexp_markedp(KEY2) && !sexp_markedp(VAL2), "nothing of the chain is retained once the first key is unreachable");
+    KIT_ASSERT(sexp_ephemeron_key(E1) == SEXP_FALSE && sexp_ephemeron_value(E1) == SEXP_FALSE && sexp_ephemeron_key(E2) == SEXP_FALSE && sexp_ephemeron_value(E2) == SEXP_FALSE, "both ephemerons are cleared");
+  }
+  size_t sum = 0;
+  sexp_sweep(ctx, &sum);
+  for (int i = 0; i < K; i++) expect[i] = 0;
+  if (!key_reachable) { expect[3] = 1; expect[4] = 1; expect[5] = 1; }
+  check_heap(ctx, expect);
 #endif
   KIT_WITNESS();
 }
